@@ -4,7 +4,8 @@ in which order) are symbolic integers.
 
 Stub contract:
   asyncio (as seen from pydra.engine.submitter): Task(coro, name) registers a pending job; wait(futures,
-      FIRST_COMPLETED) lets any subset of pending jobs become visibly 'running' (their lock file exists) and
+      FIRST_COMPLETED) lets any subset of pending jobs become visibly 'running' (their lock file exists), lets any subset
+      run to its end without reporting yet (result on disk, future still pending - a polling worker), and
       completes a non-empty subset chosen by the schedule, never returning an empty `done`; sleep() returns at once.
   loop.run_until_complete(coro): drives the coroutine to completion (nothing ever really suspends).
   ScriptedWorker.run(job): executes a pickled copy of the job with the real Job.run when the schedule completes it
@@ -54,6 +55,7 @@ class FakeTask:
         self.coro, self.name = coro, name
         self.finished, self.value, self.exc = False, None, None
         self.running_visible = False
+        self.executed = False
         STATE["order"] += 1
         self.order = STATE["order"]
         STATE["inflight"] += 1
@@ -76,7 +78,11 @@ class FakeTask:
             open(self.job.lockfile, "w").close()
             STATE["events"].append(("visible", self._label()))
 
-    def complete(self):
+    def execute(self):
+        """the job runs to its end now (its result is on disk) but the future has not been reported yet"""
+        if self.executed:
+            return
+        self.executed = True
         if self.running_visible:
             try:
                 os.unlink(self.job.lockfile)
@@ -89,6 +95,10 @@ class FakeTask:
             self.value = e.value
         except Exception as e:
             self.exc = e
+        STATE["events"].append(("executed-unreported", self._label()))
+
+    def complete(self):
+        self.execute()
         self.finished = True
         STATE["inflight"] -= 1
 
@@ -119,13 +129,15 @@ class FakeAsyncio:
         for t in pend:
             if t is first:
                 continue
-            c = s.next(3)          # 0: stays queued, 1: becomes visibly running, 2: completes too
+            c = s.next(4)          # 0: stays queued, 1: becomes visibly running, 2: completes too, 3: runs to its end but reports later
             if STATE.get("all_complete"):
                 c = 2              # restricted schedules: every submitted job completes before the next wake-up
             if c == 1:
                 t.make_visible()
             elif c == 2:
                 done.append(t)
+            elif c == 3:
+                t.execute()
         if s.next(2):
             done.reverse()
         for t in done:
